@@ -1,6 +1,8 @@
 import BSModel.Proofs.Entities
 import BSModel.Proofs.Html5
 import BSModel.Proofs.Html5Fix
+import BSModel.Proofs.EntitiesPopulate
+import BSModel.Gen.EntitiesSource
 import BSModel.Gen.Entities
 import BSModel.Gen.EntitiesFormatters
 /-! # C09 — entity substitution and attribute quoting are reversible for every string
@@ -273,6 +275,48 @@ theorem html5_old_not_reversible_semicolon_dropped :
 theorem html5_old_not_reversible_runaway :
     readText BS.Gen.C09.htmlTable false 0 (substHtml5Old BS.Gen.C09.htmlTable (ofS "&#x")) = ofS "&#x" ++ [RUNAWAY] := by
   decide +kernel
+
+/-! ## `_populate_class_variables`: what the construction of the regexes guarantees for ANY html5 table
+
+`populateParticles items` / `populateParticlesAmp items` mirror dammit.py:139-231 (`items = sorted(html5.items())`). The
+correspondence compares them — and `unicodeToName`, `nameToUnicode`, `legacyNames` — with what the real function computes,
+exactly, on the live tables and on synthetic html5 tables. The facts below hold by construction; the name round trip
+(`HTML_ENTITY_TO_CHARACTER[CHARACTER_TO_HTML_ENTITY[k]] = k`) does not (it depends on html5 and codepoint2name agreeing) and
+stays the decided table obligation `tblOK_live`. -/
+
+/-- The live `html.entities.html5`: every character sequence is non-empty, those that enter the regex have at most two code
+    points, none of them starts with `&`. -/
+theorem itemsOK_live : itemsOK BS.Gen.C09.html5Items = true ∧ itemsNoAmpHead BS.Gen.C09.html5Items = true := by
+  decide +kernel
+
+/-- The dictionary the readers use and the item list the construction starts from are the same data. -/
+theorem html5_dict_is_items_live : Dict.toList BS.Gen.C09.htmlTable.html5 = BS.Gen.C09.html5Items := by decide +kernel
+
+/-- Look-ahead makes the alternatives mutually exclusive — for every well-formed table, not only the shipped one. -/
+theorem populate_alternatives_exclusive (items : Items) (hok : itemsOK items = true)
+    (hamp : itemsNoAmpHead items = true) : Excl (populateParticles items) ∧ Excl (populateParticlesAmp items) :=
+  ⟨populate_exclusive hok, populateAmp_exclusive hok (itemsNoAmpHead_spec hamp)⟩
+
+/-- Hence the order in which the `set` of particles is joined never matters. -/
+theorem populate_order_irrelevant_any_table (items : Items) (hok : itemsOK items = true)
+    (hamp : itemsNoAmpHead items = true) (ps' : List Particle) (hp : ps'.Perm (populateParticlesAmp items))
+    (rep : PStr → PStr) (s : PStr) : reSub ps' rep 0 s = reSub (populateParticlesAmp items) rep 0 s :=
+  populate_order_irrelevant hok (itemsNoAmpHead_spec hamp) ps' hp rep s
+
+/-- `<`, `>` and every non-ASCII character html5 names are always caught by some alternative. -/
+theorem populate_catches_named_characters (items : Items) (hok : itemsOK items = true) (c : Nat)
+    (hc : ∃ it ∈ items, it.2 = [c] ∧ inRegex [c] = true ∧ c ≠ 38) : coversChar (populateParticles items) c = true :=
+  populate_covers hok hc
+
+/-- Every alternative has a name in `unicode_to_name` (so the `&amp;…;` fallback of `_substitute_html_entity` is dead code). -/
+theorem populate_alternatives_named (items : Items) (cp2name : List (Nat × PStr)) (p : Particle)
+    (hp : p ∈ populateParticles items) : (unicodeToName items cp2name p.key).isSome = true :=
+  populate_keys_named cp2name hp
+
+example : coversChar (populateParticles BS.Gen.C09.html5Items) 60 = true :=
+  populate_catches_named_characters _ itemsOK_live.1 60 ⟨(ofS "LT", [60]), by decide +kernel, rfl, by decide, by decide⟩
+example : populateParticlesAmp [(ofS "lt;", [60]), (ofS "nvlt;", [60, 8402]), (ofS "fjlig;", ofS "fj"), (ofS "amp", [38])] =
+    [⟨[60], [8402]⟩, ⟨[60, 8402], []⟩, ⟨[38], []⟩] := by decide
 
 /-! ## the registered formatters -/
 
